@@ -524,7 +524,7 @@ func main() {
 		}
 	}
 
-	n := r.N(40000, 800000)
+	n := r.N(30000, 400000)
 	r.Parallel(n, func(c *vk.Case) {
 		rng := c.Rng
 		// ------------------------------------------------------------------ O1 + O2
